@@ -5,8 +5,10 @@ cd "$(dirname "$0")/.."
 WT=/tmp/gentie-wt-$$
 git -C /repo worktree add -q --detach $WT HEAD || exit 2
 for d in ${@:-seeded/C*}; do
-  m=$(basename $d)
-  git -C $WT checkout -q -- . && git -C $WT apply $PWD/seeded/$m/patch.diff || { echo "$m apply-failed"; continue; }
+  m=$(basename $d .diff)
+  pf=$PWD/seeded/$m/patch.diff
+  case $d in *.diff) pf=$PWD/$d;; esac
+  git -C $WT checkout -q -- . && git -C $WT apply $pf || { echo "$m apply-failed"; continue; }
   VERIF_REPO=$WT python3 - <<PY
 import importlib.machinery, importlib.util, json, sys
 l = importlib.machinery.SourceFileLoader("chk", "$PWD/check")
